@@ -272,10 +272,24 @@ fn scenario(cfg: &RunCfg, large: bool) -> Outcome {
     let user_te = has(&spec.headers, "transfer-encoding");
     let must_refuse = dup_ct || user_cl || user_te;
     let mut w = if large { ScriptWriter::new(gen::pick(&[Pieces::Whole, Pieces::Random(100_000), Pieces::Random(3000)])) } else { writer_sched() };
+    // one EINTR in a share of the small runs: the sink reports Interrupted once, after a
+    // drawn number of accepted bytes, and then goes on. A serialiser may give up (the run
+    // then says nothing) or retry; if it reports success the output must be right.
+    let eintr = !large && !must_refuse && gen::ratio(1, 10);
+    if eintr {
+        w.fail_at = Some((gen::below(120) as usize, std::io::ErrorKind::Interrupted));
+        w.transient = true;
+    }
     let res = match serialise(&spec, &dir, "a", &mut w) {
         Ok(r) => r,
         Err(o) => return o,
     };
+    if eintr && w.transient_fired {
+        gen::count("probe.eintr_during_write");
+        if res.is_err() {
+            return Outcome { nontrivial: false, ..Default::default() };
+        }
+    }
     let case_hash = sim_core::tape::fnv1a(format!("{spec:?}").as_bytes());
     if must_refuse {
         gen::count("probe.must_refuse");
